@@ -87,6 +87,7 @@ RULES = {
     "R46": _get(XR, "r46_update_formula"),
     "R48": _get(XR, "r48_update_does_not_need_unique_buffers"),
     "R50": _get(XR, "r50_only_update_reseats_handles"),
+    "R52": _get(XR, "r52_model_update_delegates"),
     "R29": _get(SR, "r29_matmul_adjoint_shapes"),
     "R31": _get(SR, "r31_reduce_last"),
     "R30": _get(GR, "r30_conv_geometry"),
@@ -122,7 +123,7 @@ PROPERTY_RULES = {
     "C11": ["R24", "R5", "R27", "R6", "R26", "R9", "R25"],
     "C12": ["R5", "R27", "R3", "R6", "R7", "R17", "R23", "R47"],
     "C13": ["R21", "R22", "R28", "R42", "R43", "R46", "R48"],
-    "C14": ["R21", "R28", "R22", "R20", "R24", "R23", "R42", "R43", "R9", "R46"],
+    "C14": ["R21", "R28", "R22", "R20", "R24", "R23", "R42", "R43", "R9", "R46", "R52"],
     "C15": ["R34", "R30"],
     "C16": ["R16", "R3", "R17", "R41"],
     "C17": ["R13", "R14", "R26", "R44"],
